@@ -2,6 +2,8 @@
 mod c01;
 mod c02;
 mod c03;
+mod c07;
+mod langs;
 mod c08;
 mod strsweep;
 mod common;
@@ -37,6 +39,7 @@ fn main() {
                 "C01" => c01::run(tier),
                 "C02" => c02::run(tier),
                 "C03" => c03::run(tier),
+                "C07" => c07::run(tier),
                 "C08" => c08::run(tier),
                 _ => {
                     eprintln!("unknown property {id}");
@@ -54,6 +57,7 @@ fn main() {
                 "tree-text" => treecheck::replay_text_case(case),
                 "diff-text" => c02::replay_diff_case(case),
                 "c03-extra" => c03::replay_extra(case),
+                "c07" => c07::replay(case),
                 e => {
                     eprintln!("unknown replay engine {e}");
                     2
